@@ -201,8 +201,19 @@ def r3(R3, cfg, F):
             ok = common.guarded_by_variant(b, add[0].bb, [['call@bb%d' % look[0].bb]], 0) and common.guarded_by_variant(b, mk[0].bb, [['call@bb%d' % look[0].bb]], 0)
             pt = common.make_pt(r'convert::(From|Into)<.*>>::(from|into)$', r'Clone>::clone$', r'ToOwned>::to_owned$', r'^std::convert::(From::from|Into::into)$')
             # the entry stored is CacheEntry::new(default, id, ..) of this very call
-            ok = ok and ('call', mk[0].bb) in b.origins(add[0].args[1]) and b.origins(mk[0].args[0]) == {('arg', 3)} \
-                and b.origins(mk[0].args[1], passthrough=pt) == {('arg', 2)} and PARAM(b, look[0], 1) == ['arg2']
+            def conv_root(op, at):
+                # where a value comes from, through conversions (`id.into()`, `SharedString::from(id)`, clones)
+                dp = common.strip_refs(common.deep_path(b, op, at=at))
+                for _ in range(4):
+                    cs_ = [c for c in b.calls() if dp == ['call@bb%d' % c.bb]]
+                    rx_ = r'convert::(From|Into)<.*>>::(from|into)$|Clone>::clone$|ToOwned>::to_owned$|^std::convert::(From::from|Into::into)$'
+                    if not cs_ or not cs_[0].callee or not cs_[0].args or not (re.search(rx_, cs_[0].callee.best) or re.search(rx_, cs_[0].callee.defp or '')):
+                        break
+                    dp = common.strip_refs(common.deep_path(b, cs_[0].args[0], at=cs_[0].bb))
+                return dp
+            # the entry stored is CacheEntry::new(default, id, ..) of this very call
+            ok = ok and conv_root(add[0].args[1], add[0].bb) == ['call@bb%d' % mk[0].bb] and conv_root(mk[0].args[0], mk[0].bb) == ['arg3'] \
+                and conv_root(mk[0].args[1], mk[0].bb) == ['arg2'] and PARAM(b, look[0], 1) == ['arg2']
         R3.check(ok, cfg, b.path, 'add_any-only-on-absent', 'get_or_insert must insert (id, default) only when the lookup found nothing', b.loc())
     # load_entry: add_asset only on the None arm
     b = F.body('<T as anycache::Cache>::load_entry')
